@@ -5,6 +5,8 @@ RC_2q == <<1, 2>>
 RO_2q == <<0, 0>>
 RC_3 == <<1, 2, 1>>
 RO_3 == <<0, 5, 0>>
+RC_4 == <<1, 2, 1, 2>>
+RO_4 == <<0, 5, 0, 6>>
 RC_ops == [i \in 1..16 |-> 1]
 RO_ops == [i \in 1..16 |-> i - 1]
 =============================================================================
